@@ -74,6 +74,8 @@ structure RS where
   -- oracle: users = starts − successful shutdowns, from the implementation's observations
   users : Int := 0
   lastOp : String := ""
+  /-- the mode the implementation showed last (after the previous tick window / op) -/
+  implRefuse : Bool := false
   fails : List String := []
 
 /-- the checker of the ref-count harness: 100 MiB / 20 MiB, GC never due (both intervals 1 h) -/
@@ -86,10 +88,12 @@ def rcHandler : Handler RS where
     match toks with
     | ["start"] =>
       let (_, err) := s.sys.rc.step .start
-      ({ s with sys := s.sys.step rcChecker rcGC rcGC .start, lastOp := "start" }, [s!"obs rc err={b01 err}"])
+      let sys := s.sys.step rcChecker rcGC rcGC .start
+      ({ s with sys := sys, lastOp := "start" }, [s!"obs rc err={b01 err}", s!"obs mode refuse={b01 sys.st.mustRefuse} meas=0"])
     | ["shutdown"] =>
       let (_, err) := s.sys.rc.step .shutdown
-      ({ s with sys := s.sys.step rcChecker rcGC rcGC .shutdown, lastOp := "shutdown" }, [s!"obs rc err={b01 err}"])
+      let sys := s.sys.step rcChecker rcGC rcGC .shutdown
+      ({ s with sys := sys, lastOp := "shutdown" }, [s!"obs rc err={b01 err}", s!"obs mode refuse={b01 sys.st.mustRefuse} meas=0"])
     | "tick" :: t =>
       match kvNat t "r", kvInt t "now" with
       | some r, some now =>
@@ -106,10 +110,16 @@ def rcHandler : Handler RS where
         let users := if s.lastOp = "start" then s.users + 1 else if err then s.users else s.users - 1
         { s with users := users, fails := s.fails ++ checkRC s.users s.lastOp err false }
       | none => { s with fails := s.fails ++ ["C18/refcount/unparsable"] }
-    | [_, "tick", c, _] =>
-      match kvBool [c] "checked" with
-      | some checked => { s with fails := s.fails ++ checkRC s.users "tick" false checked }
-      | none => { s with fails := s.fails ++ ["C18/refcount/unparsable"] }
+    | [_, "tick", c, rf] =>
+      match kvBool [c] "checked", kvBool [rf] "refuse" with
+      | some checked, some refuse => { s with implRefuse := refuse, fails := s.fails ++ checkRC s.users "tick" false checked }
+      | _, _ => { s with fails := s.fails ++ ["C18/refcount/unparsable"] }
+    | [_, "mode", rf, m] =>
+      -- the mode right after a start / shutdown, before any time passes: it may only differ from the last one if a reading was taken
+      match kvBool [rf] "refuse", kvNat [m] "meas" with
+      | some refuse, some meas =>
+        { s with implRefuse := refuse, fails := s.fails ++ (checkMode s.implRefuse refuse meas).map (fun f => s!"{f}/{s.lastOp}") }
+      | _, _ => { s with fails := s.fails ++ ["C18/refcount/unparsable"] }
     | _ => s
   onEnd := fun s =>
     match s.fails with
@@ -138,6 +148,7 @@ def procHandler : Handler PS where
         let k := out.counts
         (s, [s!"obs res fwd={b01 out.forwarded.isSome} {rs} permanent={b01 out.res.isPermanent} acc={k.accepted} ref={k.refused} in={k.incoming} out={k.outgoing}"])
       | _, _, _, _ => (s, ["obs bad-op"])
+    | "stopsharer" :: _ => (s, ["obs stopped err=0"])
     | "mustrefuse" :: t =>
       match kvBool t "refusing" with
       | some r => (s, [s!"obs ext {b01 (extMustRefuse { mustRefuse := r })}"])
